@@ -165,6 +165,40 @@ def histories(seed, prop, n, big=False, drop=(), maxvars=5, maxops=30, asc_widen
     return out
 
 
+def box_joins(seed, n):
+    """scripted binary-operation cases on the case splits of the graph joins: two registers hold
+    boxes (constants or finite bounds per variable, sometimes one difference constraint), the
+    bounds of each variable go up or down from the left to the right operand independently;
+    then join / widening / meet into a third register, its exported constraints and the
+    inclusion of both operands are queried"""
+    rng = random.Random(seed)
+    out = []
+    for _ in range(n):
+        nv = rng.choice([2, 2, 3, 4])
+        ops = []
+        for r in (0, 1):
+            for x in range(nv):
+                c = rng.randint(-3, 3)
+                if rng.random() < 0.6:
+                    ops.append("assign %d %d E 0 %d" % (r, x, c))
+                else:
+                    w = rng.randint(0, 3)
+                    ops.append("assume %d 2 C le E 1 -1 %d %d C le E 1 1 %d %d" % (r, x, c, x, -(c + w)))
+            if nv >= 2 and rng.random() < 0.3:
+                a, b = rng.sample(range(nv), 2)
+                ops.append("assume %d 1 C le E 2 1 %d -1 %d %d" % (r, a, b, rng.randint(-2, 2)))
+        op = rng.choice(["join", "join", "join", "widen", "meet"])
+        ops.append("%s 2 0 1" % op)
+        ops.append("q_csts 2")
+        if op != "meet":
+            ops.append("q_leq 0 2"); ops.append("q_leq 1 2")
+        else:
+            ops.append("q_leq 2 0"); ops.append("q_leq 2 1")
+        ops.append("q_csts 2")
+        out.append("hist 3 %d ; %s" % (nv, " ; ".join(ops)))
+    return out
+
+
 # ---------------------------------------------------------------- widening chains
 
 def rel_cst(rng, nv, shape):
